@@ -1,7 +1,8 @@
 (* Proofs/YamlEditSeq.v — env set / env rm (the CLI routing through "values"), --secret, and sequences of
    operations: invariants and frame by induction over the sequence. *)
 From Coq Require Import Lia ZifyNat ZifyBool.
-From Verif Require Import Base.Bytes Model.YamlEdit Proofs.YamlEditBase Proofs.YamlEditProofs Proofs.YamlEditNorm.
+From Verif Require Import Base.Bytes Model.YamlEdit Proofs.YamlEditBase Proofs.YamlEditProofs Proofs.YamlEditNorm
+  Proofs.YamlEditRec.
 Local Open Scope Z_scope.
 
 (* ---------- Get composes ---------- *)
@@ -46,38 +47,129 @@ Proof. destruct p as [|a p]; [reflexivity|]. cbn. now destruct (is_imports a). Q
 Lemma wf_empty_map : wf empty_map_node = true.
 Proof. reflexivity. Qed.
 
-(* env set ends with one Set of the full path on a well-formed root *)
+(* ---------- the edit below "values" and the same edit from the root ---------- *)
+Lemma yget_key_found_kind k q n m : yget (AKey k :: q) n = GFound m -> nkind n = KMap.
+Proof. cbn [yget]. destruct (nkind n); try discriminate. reflexivity. Qed.
+
+Lemma is_prefix_one q a r : is_prefix q [a] = true -> is_prefix q (a :: r) = true.
+Proof.
+  destruct q as [|b [|c q]]; cbn [is_prefix]; auto.
+  rewrite andb_false_r. discriminate.
+Qed.
+
+(* the trees differ at most in where the line comment of the key "values" is: [r2] is what Set / Delete from the root
+   of the definition give, [root'] what the commands give *)
+Definition upto_values_key (r2 root' : node) : Prop :=
+  r2 = root' \/ r2 = norm_path [AKey values_key] root'.
+
+Lemma fix_key_at_upto pr n : nkind n = KMap -> upto_values_key (fix_key_at pr values_key n) n.
+Proof.
+  intros Hk. rewrite fix_key_at_norm by auto. unfold upto_values_key. destruct (p_key_lc pr); auto.
+Qed.
+
+Lemma upto_yget r2 root' q :
+  upto_values_key r2 root' -> is_prefix q [AKey values_key] = false -> yget q root' = yget q r2.
+Proof. intros [->| ->] Hq; [reflexivity|]. now rewrite yget_norm_other. Qed.
+
+Lemma upto_wf r2 root' : upto_values_key r2 root' -> wf root' = wf r2.
+Proof. intros [->| ->]; [reflexivity|]. now rewrite wf_norm. Qed.
+
+Lemma upto_wf_root r2 root' : upto_values_key r2 root' -> wf_root root' = wf_root r2.
+Proof. intros [->| ->]; [reflexivity|]. now rewrite wf_root_norm. Qed.
+
+Lemma on_values_kind f root root' : on_values f root = Ok root' -> nkind root' = nkind root.
+Proof. unfold on_values. intros H. apply rmap_ok in H. destruct H as (c & _ & ->). apply with_content_kind. Qed.
+
+Lemma on_values_set pr p v root root' :
+  nkind root = KMap -> on_values (yset pr p v) root = Ok root' ->
+  exists r2, yset pr (AKey values_key :: p) v root = Ok r2 /\ upto_values_key r2 root'.
+Proof.
+  intros Hk H. rewrite yset_values, H by auto. cbn. eexists. split; [reflexivity|].
+  apply fix_key_at_upto. now rewrite (on_values_kind _ _ _ H).
+Qed.
+
+Lemma on_values_delete pr p root root' vn :
+  p <> [] -> yget [AKey values_key] root = GFound vn -> on_values (ydelete pr p) root = Ok root' ->
+  exists r2, ydelete pr (AKey values_key :: p) root = Ok r2 /\ upto_values_key r2 root'.
+Proof.
+  intros Hp Hg H. rewrite (ydelete_values _ _ _ _ Hp Hg), H. cbn. eexists. split; [reflexivity|].
+  apply fix_key_at_upto. rewrite (on_values_kind _ _ _ H). eapply yget_key_found_kind; eauto.
+Qed.
+
+Lemma on_values_total f root :
+  wf_root root = true -> nkind root = KMap -> (forall v, wf_root v = true -> f v <> Panic) ->
+  on_values f root <> Panic.
+Proof.
+  intros Hw Hk Hf. unfold on_values. apply rmap_not_panic.
+  destruct (wf_root_cases _ Hw) as [[Hz _]|Hwn]; [congruence|].
+  destruct (wf_map _ Hwn Hk) as (He & _ & _ & Hall).
+  apply upd_key_not_panic; auto. intros v [Hin| ->]; apply Hf; [|reflexivity].
+  apply wf_wf_root. eapply forallb_In; eauto. now apply vals_of_in.
+Qed.
+
+(* an edit that gives back the node it was given leaves the definition as it is *)
+Lemma upd_key_id key f l v :
+  find_val key l = GFound v -> f v = Ok v -> upd_key key f l = Ok l.
+Proof.
+  induction l as [| k0 | k0 v0 r IH] using pair_ind; cbn; try discriminate.
+  destruct (String.eqb (nvalue k0) key).
+  - intros H Hf. inversion H; subst. now rewrite Hf.
+  - intros H Hf. now rewrite IH.
+Qed.
+
+(* env set ends with one Set of the full path on a well-formed root, up to the place of the line comment of the key
+   "values" *)
 Lemma env_set_last pr p v root root' :
   set_params_ok pr = true -> wf_root root = true -> env_set pr p v root = Ok root' ->
-  exists r1, wf_root r1 = true /\ yset pr (full_path p) v r1 = Ok root' /\
+  exists r1 r2, wf_root r1 = true /\ yset pr (full_path p) v r1 = Ok r2 /\
+             (r2 = root' \/ (upto_values_key r2 root' /\ exists a p', full_path p = AKey values_key :: a :: p')) /\
              (r1 = root \/ (yget [AKey values_key] root = GMissing /\
                             yset pr [AKey values_key] empty_map_node root = Ok r1 /\
                             full_path p = AKey values_key :: p)).
 Proof.
   intros Hp Hw H. destruct p as [|a p]; [discriminate|]. unfold env_set in H. unfold full_path.
   destruct (is_imports a).
-  - exists root. split; [exact Hw|]. split; [exact H|now left].
+  - exists root, root'. split; [exact Hw|]. split; [exact H|]. split; now left.
   - destruct (yget [AKey values_key] root) eqn:Eg; try discriminate.
-    + exists root. split; [exact Hw|]. split; [exact H|now left].
+    + destruct (on_values_set _ _ _ _ _ (yget_key_found_kind _ _ _ _ Eg) H) as (r2 & H2 & Hu).
+      exists root, r2. split; [exact Hw|]. split; [exact H2|]. split; [right; split; eauto|now left].
     + destruct (yset pr [AKey values_key] empty_map_node root) as [r1| |] eqn:E1; try discriminate.
-      exists r1. split; [|split; [exact H|right; auto]]. apply wf_wf_root. eapply set_wf; eauto. reflexivity.
+      destruct (get_set_empty pr [AKey values_key] empty_map_node root r1 Hp (eq_refl : ncontent empty_map_node = []) E1)
+        as (m & Hm & _).
+      destruct (on_values_set _ _ _ _ _ (yget_key_found_kind _ _ _ _ Hm) H) as (r2 & H2 & Hu).
+      exists r1, r2. split; [|split; [exact H2|split; [right; split; eauto|right; auto]]].
+      apply wf_wf_root. eapply set_wf; eauto. reflexivity.
+Qed.
+
+Lemma not_prefix_of_values q a p' :
+  is_prefix q (AKey values_key :: a :: p') = false -> is_prefix q [AKey values_key] = false.
+Proof.
+  intros H. destruct (is_prefix q [AKey values_key]) eqn:E; auto.
+  now rewrite (is_prefix_one _ _ (a :: p') E) in H.
 Qed.
 
 Theorem env_get_set pr p v root root' :
   set_params_ok pr = true -> wf_root root = true -> env_set pr p v root = Ok root' ->
   exists m, env_get p root' = GFound m /\ denote m = denote v.
 Proof.
-  intros Hp Hw H. destruct (env_set_last _ _ _ _ _ Hp Hw H) as (r1 & _ & Hs & _).
-  rewrite env_get_full. eapply get_set; eauto.
+  intros Hp Hw H. destruct (env_set_last _ _ _ _ _ Hp Hw H) as (r1 & r2 & _ & Hs & Hr2 & _).
+  rewrite env_get_full. destruct (get_set _ _ _ _ _ Hp Hs) as (m & Hg & Hd). exists m. split; auto.
+  destruct Hr2 as [->|(Hu & a & p' & Hf)]; auto.
+  rewrite (upto_yget _ _ _ Hu); auto. rewrite Hf. cbn [is_prefix]. now rewrite andb_false_r.
 Qed.
 
 Theorem env_set_wf pr p v root root' :
   set_params_ok pr = true -> wf_root root = true -> wf v = true ->
   env_set pr p v root = Ok root' -> wf root' = true.
 Proof.
-  intros Hp Hw Hv H. destruct (env_set_last _ _ _ _ _ Hp Hw H) as (r1 & Hw1 & Hs & _).
-  eapply set_wf; eauto.
+  intros Hp Hw Hv H. destruct (env_set_last _ _ _ _ _ Hp Hw H) as (r1 & r2 & Hw1 & Hs & Hr2 & _).
+  assert (Hw2 : wf r2 = true) by (eapply set_wf; eauto).
+  destruct Hr2 as [->|(Hu & _)]; auto. now rewrite (upto_wf _ _ Hu).
 Qed.
+
+Lemma on_values_set_total pr p v root :
+  wf_root root = true -> nkind root = KMap -> on_values (yset pr p v) root <> Panic.
+Proof. intros Hw Hk. apply on_values_total; auto. intros x Hx. now apply set_total. Qed.
 
 Theorem env_set_total pr p v root :
   set_params_ok pr = true -> wf_root root = true -> env_set pr p v root <> Panic.
@@ -85,9 +177,12 @@ Proof.
   intros Hp Hw. destruct p as [|a p]; [discriminate|]. unfold env_set.
   destruct (is_imports a); [now apply set_total|].
   destruct (yget [AKey values_key] root) eqn:Eg.
-  - now apply set_total.
+  - apply on_values_set_total; auto. eapply yget_key_found_kind; eauto.
   - destruct (yset pr [AKey values_key] empty_map_node root) as [r1| |] eqn:E1; try discriminate.
-    + apply set_total, wf_wf_root. eapply set_wf; eauto. reflexivity.
+    + destruct (get_set_empty pr [AKey values_key] empty_map_node root r1 Hp (eq_refl : ncontent empty_map_node = []) E1)
+        as (m & Hm & _).
+      apply on_values_set_total; [|eapply yget_key_found_kind; eauto].
+      apply wf_wf_root. eapply set_wf; eauto. reflexivity.
     + exfalso. eapply set_total; eauto.
   - exfalso. eapply yget_total; eauto.
 Qed.
@@ -99,8 +194,11 @@ Theorem env_set_frame pr p v root root' q :
   set_params_ok pr = true -> wf_root root = true -> env_set pr p v root = Ok root' ->
   related (full_path p) q = false -> yget q root' = yget q root.
 Proof.
-  intros Hp Hw H Hr. destruct (env_set_last _ _ _ _ _ Hp Hw H) as (r1 & Hw1 & Hs & Hcase).
-  rewrite (set_frame _ _ _ _ _ _ Hw1 Hs Hr).
+  intros Hp Hw H Hr. destruct (env_set_last _ _ _ _ _ Hp Hw H) as (r1 & r2 & Hw1 & Hs & Hr2 & Hcase).
+  assert (Hq : yget q root' = yget q r2).
+  { destruct Hr2 as [->|(Hu & a & p' & Hf)]; [reflexivity|]. apply (upto_yget _ _ _ Hu).
+    apply (not_prefix_of_values q a p'). rewrite <- Hf. now apply unrelated_not_prefix. }
+  rewrite Hq, (set_frame _ _ _ _ _ _ Hw1 Hs Hr).
   destruct Hcase as [->|(Hmiss & H1 & Hfull)]; [reflexivity|].
   destruct (related [AKey values_key] q) eqn:Er1.
   - (* q goes through "values", which did not exist *)
@@ -111,20 +209,50 @@ Proof.
     cbn [andb] in Hr.
     rewrite (yget_missing_ext _ q root Hmiss).
     destruct (get_set_empty pr [AKey values_key] empty_map_node root r1 Hp (eq_refl : ncontent empty_map_node = []) H1) as (m & Hm & Hkm & Hcm).
-    rewrite yget_cons, Hm. assert (Hq : q <> []) by (eapply unrelated_nonnil; eauto).
+    rewrite yget_cons, Hm. assert (Hq' : q <> []) by (eapply unrelated_nonnil; eauto).
     destruct q as [|b q]; [congruence|]. cbn [yget]. rewrite Hkm, Hcm. cbn. now destruct b.
   - eapply set_frame; eauto.
 Qed.
 
 (* ---------- env rm ---------- *)
+(* Delete(valuesNode, []) is refused or does nothing *)
+Lemma on_values_delete_nil pr root root' vn :
+  yget [AKey values_key] root = GFound vn -> on_values (ydelete pr []) root = Ok root' -> root' = root.
+Proof.
+  intros Eg H. unfold on_values in H. cbn [yget] in Eg.
+  destruct (nkind root) eqn:Hk; try discriminate.
+  destruct (find_val values_key (ncontent root)) eqn:Ef; try discriminate. inversion Eg; subst n.
+  apply rmap_ok in H. destruct H as (c & Hc & ->).
+  destruct (upd_key_ok _ _ _ _ Hc) as (v0 & v' & Hf & _ & [(Hv0 & _)|(Hm & _)]); [|congruence].
+  rewrite Ef in Hv0. inversion Hv0; subst v0.
+  assert (Hid : ydelete pr [] vn = Ok vn).
+  { rewrite ydelete_nil in *. cbn in *. destruct (p_del_empty pr); cbn in *; congruence. }
+  rewrite (upd_key_id _ _ _ _ Ef Hid) in Hc. inversion Hc; subst c. apply with_content_same.
+Qed.
+
+(* what env rm does below "values", in terms of Delete from the root: nothing, or Delete(root, "values" :: p) up to the
+   place of the line comment of the key "values" *)
+Lemma env_rm_values_cases pr p root root' :
+  env_rm_values pr p root = Ok root' ->
+  root' = root
+  \/ exists r2, ydelete pr (AKey values_key :: p) root = Ok r2 /\
+                (r2 = root' \/ (p <> [] /\ upto_values_key r2 root')).
+Proof.
+  unfold env_rm_values. intros H. destruct (yget [AKey values_key] root) as [vn| |] eqn:Eg; try discriminate.
+  - destruct (p_rm_root pr); [right; eauto|].
+    destruct p as [|a p].
+    + left. eapply on_values_delete_nil; eauto.
+    + right. destruct (on_values_delete pr (a :: p) root root' vn) as (r2 & H2 & Hu); auto; [discriminate|].
+      exists r2. split; auto. right. split; [discriminate|auto].
+  - left. congruence.
+Qed.
+
 Lemma env_rm_values_total pr p root :
   del_params_ok pr = true -> wf_root root = true -> env_rm_values pr p root <> Panic.
 Proof.
   intros Hp Hw. unfold env_rm_values. destruct (yget [AKey values_key] root) eqn:Eg.
-  - destruct p as [|a p].
-    + unfold del_params_ok in Hp. apply andb_true_iff in Hp as [Hg _].
-      destruct (p_del_empty pr); cbn in *; congruence.
-    + now apply delete_total.
+  - destruct (p_rm_root pr); [now apply delete_total|].
+    apply on_values_total; auto; [eapply yget_key_found_kind; eauto|]. intros x Hx. now apply delete_total.
   - discriminate.
   - exfalso. eapply yget_total; eauto.
 Qed.
@@ -132,25 +260,17 @@ Qed.
 Theorem env_rm_total pr p root :
   del_params_ok pr = true -> wf_root root = true -> env_rm pr p root <> Panic.
 Proof.
-  intros Hp Hw. unfold env_rm. destruct (nkind root); try discriminate;
+  intros Hp Hw. unfold env_rm. destruct (p_rm_guard pr && is_nil p); [discriminate|].
+  destruct (nkind root); try discriminate;
     (destruct (rm_from_root pr p); [now apply delete_total|now apply env_rm_values_total]).
 Qed.
 
 Lemma env_rm_values_wf pr p root root' :
   wf_root root = true -> env_rm_values pr p root = Ok root' -> wf_root root' = true.
 Proof.
-  intros Hw H. unfold env_rm_values in H. destruct (yget [AKey values_key] root) eqn:Eg; try discriminate.
-  - destruct p as [|a p].
-    + destruct (p_del_empty pr); cbn in H; try discriminate. congruence.
-    + eapply delete_wf; eauto.
-  - congruence.
-Qed.
-
-Theorem env_rm_wf pr p root root' :
-  wf_root root = true -> env_rm pr p root = Ok root' -> wf_root root' = true.
-Proof.
-  intros Hw H. unfold env_rm in H. destruct (nkind root); try (inversion H; subst; exact Hw);
-    (destruct (rm_from_root pr p); [eapply delete_wf; eauto|eapply env_rm_values_wf; eauto]).
+  intros Hw H. destruct (env_rm_values_cases _ _ _ _ H) as [->|(r2 & H2 & Hr2)]; auto.
+  assert (Hw2 : wf_root r2 = true) by (eapply delete_wf; eauto).
+  destruct Hr2 as [->|(_ & Hu)]; auto. now rewrite (upto_wf_root _ _ Hu).
 Qed.
 
 (* env rm works on [rm_path p]: below "values", or from the root for "imports" when the source does so *)
@@ -160,10 +280,22 @@ Lemma env_rm_cases pr p root root' :
   \/ (rm_from_root pr p = true /\ ydelete pr p root = Ok root')
   \/ (rm_from_root pr p = false /\ env_rm_values pr p root = Ok root').
 Proof.
-  unfold env_rm. intros H. destruct (nkind root) eqn:Hk.
+  unfold env_rm. intros H. destruct (p_rm_guard pr && is_nil p); [discriminate|].
+  destruct (nkind root) eqn:Hk.
   1: { left. split; congruence. }
   all: destruct (rm_from_root pr p); [right; left; auto|right; right; auto].
 Qed.
+
+Theorem env_rm_wf pr p root root' :
+  wf_root root = true -> env_rm pr p root = Ok root' -> wf_root root' = true.
+Proof.
+  intros Hw H. destruct (env_rm_cases _ _ _ _ H) as [[_ ->]|[[_ Hd]|[_ Hv]]]; auto.
+  - eapply delete_wf; eauto.
+  - eapply env_rm_values_wf; eauto.
+Qed.
+
+Lemma longer_not_prefix_of_values (p : path) : p <> [] -> is_prefix (AKey values_key :: p) [AKey values_key] = false.
+Proof. destruct p; [congruence|]. intros _. cbn [is_prefix]. now rewrite andb_false_r. Qed.
 
 Theorem env_rm_removes_key pr p k root root' :
   wf_root root = true -> env_rm pr (p ++ [AKey k]) root = Ok root' ->
@@ -174,12 +306,24 @@ Proof.
   - destruct (rm_from_root pr (p ++ [AKey k])); [|now apply yget_zero_kind].
     destruct (p ++ [AKey k]) eqn:E; [destruct p; discriminate|]. now apply yget_zero_kind.
   - rewrite Hr. eapply delete_removes_key; eauto.
-  - rewrite Hr. unfold env_rm_values in Hv.
-    destruct (yget [AKey values_key] root) eqn:Eg; try discriminate.
-    + destruct (p ++ [AKey k]) as [|a p'] eqn:Ep; [destruct p; discriminate|]. rewrite <- Ep in *.
-      change (AKey values_key :: p ++ [AKey k]) with ((AKey values_key :: p) ++ [AKey k]) in *.
-      eapply delete_removes_key; eauto.
-    + inversion Hv; subst root'. now apply yget_missing_ext.
+  - rewrite Hr. destruct (env_rm_values_cases _ _ _ _ Hv) as [->|(r2 & H2 & Hr2)].
+    + unfold env_rm_values in Hv. destruct (yget [AKey values_key] root) eqn:Eg; try discriminate.
+      * (* "values" is there and nothing changed: the key was not there *)
+        assert (Hnp : root = root) by reflexivity.
+        destruct (p_rm_root pr) eqn:Er.
+        -- change (AKey values_key :: p ++ [AKey k]) with ((AKey values_key :: p) ++ [AKey k]) in *.
+           eapply delete_removes_key; eauto.
+        -- destruct (on_values_delete pr (p ++ [AKey k]) root root n) as (r2 & H2 & Hu); auto.
+           { destruct p; discriminate. }
+           change (AKey values_key :: p ++ [AKey k]) with ((AKey values_key :: p) ++ [AKey k]) in *.
+           rewrite (upto_yget _ _ _ Hu).
+           ++ eapply delete_removes_key; eauto.
+           ++ apply longer_not_prefix_of_values. destruct p; discriminate.
+      * now apply yget_missing_ext.
+    + change (AKey values_key :: p ++ [AKey k]) with ((AKey values_key :: p) ++ [AKey k]) in *.
+      assert (Hm : yget ((AKey values_key :: p) ++ [AKey k]) r2 = GMissing) by (eapply delete_removes_key; eauto).
+      destruct Hr2 as [->|(_ & Hu)]; auto.
+      rewrite (upto_yget _ _ _ Hu); auto. apply (longer_not_prefix_of_values (p ++ [AKey k])). destruct p; discriminate.
 Qed.
 
 Theorem env_rm_frame pr p root root' q :
@@ -199,14 +343,48 @@ Proof.
           repeat match type of E with context [if ?c then _ else _] => destruct c end; discriminate.
     + now apply yget_zero_kind.
   - rewrite Hf in *. eapply delete_frame; eauto.
-  - rewrite Hf in *. unfold env_rm_values in Hv.
-    destruct (yget [AKey values_key] root) eqn:Eg; try discriminate.
-    + destruct p as [|a p]; [congruence|]. eapply delete_frame; eauto.
-    + inversion Hv; subst root'. destruct q as [|b q]; [reflexivity|].
+  - rewrite Hf in *.
+    assert (Hsame : ydelete pr (AKey values_key :: p) root = Ok root \/ yget [AKey values_key] root = GMissing ->
+                    yget (shift_del (AKey values_key :: p) q) root = yget q root).
+    { intros [Hd|Eg]; [eapply delete_frame; eauto|].
+      destruct q as [|b q]; [reflexivity|].
       destruct (acc_eqb (AKey values_key) b) eqn:Eb.
       * apply acc_eqb_eq in Eb. subst b. rewrite shift_del_cons_same by auto.
         now rewrite !(yget_missing_ext _ _ _ Eg).
-      * now rewrite shift_del_cons_diff.
+      * now rewrite shift_del_cons_diff. }
+    destruct (env_rm_values_cases _ _ _ _ Hv) as [->|(r2 & H2 & Hr2)].
+    + unfold env_rm_values in Hv. destruct (yget [AKey values_key] root) as [vn| |] eqn:Eg; try discriminate.
+      * destruct (p_rm_root pr) eqn:Er.
+        -- apply Hsame; auto.
+        -- destruct (on_values_delete pr p root root vn) as (r2 & H2 & Hu); auto.
+           rewrite (upto_yget _ _ _ Hu); [eapply delete_frame; eauto|].
+           destruct (is_prefix (shift_del (AKey values_key :: p) q) [AKey values_key]) eqn:E; auto.
+           pose proof (shift_not_prefix _ _ Hr) as Hn. rewrite removelast_cons in Hn by auto.
+           now rewrite (is_prefix_one _ _ _ E) in Hn.
+      * apply Hsame; auto.
+    + assert (Hfr : yget (shift_del (AKey values_key :: p) q) r2 = yget q root) by (eapply delete_frame; eauto).
+      destruct Hr2 as [->|(_ & Hu)]; auto.
+      rewrite (upto_yget _ _ _ Hu); auto.
+      destruct (is_prefix (shift_del (AKey values_key :: p) q) [AKey values_key]) eqn:E; auto.
+      pose proof (shift_not_prefix _ _ Hr) as Hn. rewrite removelast_cons in Hn by auto.
+      now rewrite (is_prefix_one _ _ _ E) in Hn.
+Qed.
+
+(* an empty path: env rm refuses it, or leaves the definition as it is — provided the command has its own guard when
+   it deletes from the root (otherwise Delete(root, ["values"]) would remove every value) *)
+Definition cli_params_ok (pr : params) : bool := implb (p_rm_root pr) (p_rm_guard pr).
+
+Theorem env_rm_empty_path pr root root' :
+  cli_params_ok pr = true -> env_rm pr [] root = Ok root' -> root' = root.
+Proof.
+  unfold cli_params_ok, env_rm. intros Hc H. cbn [is_nil] in H. rewrite andb_true_r in H.
+  destruct (p_rm_guard pr) eqn:Eg; [discriminate|].
+  destruct (p_rm_root pr) eqn:Er; [discriminate|].
+  assert (Hv : env_rm_values pr [] root = Ok root' -> root' = root).
+  { unfold env_rm_values. rewrite Er. destruct (yget [AKey values_key] root) as [vn| |] eqn:Eg'; try discriminate.
+    - eapply on_values_delete_nil; eauto.
+    - congruence. }
+  destruct (nkind root); cbn [rm_from_root] in H; auto; congruence.
 Qed.
 
 (* with the repair, env rm addresses the same node as env get and env set *)
@@ -385,15 +563,13 @@ Proof.
 Qed.
 
 Lemma cli_step_frame pr o t t' q :
-  set_params_ok pr = true -> wf_root t = true -> cli_step pr o t = Ok t' -> cli_indep pr o q ->
-  yget q t' = yget q t.
+  set_params_ok pr = true -> cli_params_ok pr = true -> wf_root t = true -> cli_step pr o t = Ok t' ->
+  cli_indep pr o q -> yget q t' = yget q t.
 Proof.
-  intros Hp Hw H Hi. destruct o as [p v|p]; cbn in *.
+  intros Hp Hc Hw H Hi. destruct o as [p v|p]; cbn in *.
   - eapply env_set_frame; eauto.
   - destruct Hi as [Hr Hs]. destruct p as [|a p].
-    + unfold env_rm, rm_from_root, env_rm_values in H. destruct (nkind t); try congruence;
-        (destruct (yget [AKey values_key] t); try discriminate; [|congruence];
-         destruct (p_del_empty pr); cbn in H; try discriminate; congruence).
+    + now rewrite (env_rm_empty_path _ _ _ Hc H).
     + rewrite <- Hs at 1. eapply env_rm_frame; eauto. congruence.
 Qed.
 
@@ -415,22 +591,22 @@ Proof.
 Qed.
 
 Theorem cli_run_frame pr ops t t' q :
-  params_ok pr = true -> wf_root t = true -> Forall op_wf ops ->
+  params_ok pr = true -> cli_params_ok pr = true -> wf_root t = true -> Forall op_wf ops ->
   run (cli_step pr) ops t = Some t' -> Forall (fun o => cli_indep pr o q) ops -> yget q t' = yget q t.
 Proof.
-  intros Hp. apply andb_true_iff in Hp as [Hs _].
+  intros Hp Hc. apply andb_true_iff in Hp as [Hs _].
   apply run_frame.
   - intros o x x' Hw Ho. now apply cli_step_inv.
   - intros o x x' q' Hw _. now apply cli_step_frame.
 Qed.
 
 Theorem cli_run_get_set pr p v t1 t2 ops t3 :
-  params_ok pr = true -> wf_root t1 = true -> wf v = true -> Forall op_wf ops ->
+  params_ok pr = true -> cli_params_ok pr = true -> wf_root t1 = true -> wf v = true -> Forall op_wf ops ->
   env_set pr p v t1 = Ok t2 -> run (cli_step pr) ops t2 = Some t3 ->
   Forall (fun o => cli_indep pr o (full_path p)) ops ->
   exists m, env_get p t3 = GFound m /\ denote m = denote v.
 Proof.
-  intros Hp Hw Hv Hops Hs Hr Hi. pose proof Hp as Hp'. apply andb_true_iff in Hp' as [Hsp _].
+  intros Hp Hc Hw Hv Hops Hs Hr Hi. pose proof Hp as Hp'. apply andb_true_iff in Hp' as [Hsp _].
   destruct (env_get_set _ _ _ _ _ Hsp Hw Hs) as (m & Hg & Hd). exists m. split; auto.
   rewrite <- Hg. rewrite !env_get_full. eapply cli_run_frame; eauto.
   apply wf_wf_root. eapply env_set_wf; eauto.
